@@ -34,6 +34,8 @@ def run(chk, repo):
     chk.rule("C10-W3", "no module-level state is written and nothing is memoised on the open path", 1)
     chk.rule("C10-W4", "groups are adjusted on copies only; move_items pops from a deep copy", 2)
     chk.attempt(w1, chk, op)
+    chk.attempt(cache_writes_model, chk, repo)
+    chk.attempt(w1_remote, chk, op, covered_by="cache_writes_model", rules=("C10-W1",))
     chk.attempt(open_writes, chk, repo)
     chk.attempt(w2, chk, op)
     chk.attempt(w2_defaults, chk, op)
@@ -181,9 +183,51 @@ def w1(chk, op):
             ok = fr.kind == "external" and fr.fq in ("platformdirs.user_cache_path", "platformdirs.user_cache_dir")
     chk.require(ok, "C10-W1", op.where(loc), "local cache files live under platformdirs.user_cache_path(project_name)",
                 f"local_cache_location is rooted at {short(base, 60) if base is not None else None}, not at the user cache directory", key="local_cache_location:root")
+
+
+def w1_remote(chk, op):
+    """C10-W1 (form): the adjacent cache location is computed by the reader only"""
     # no use of the remote (adjacent) location for writing in the library
     rem_writers = [k for k in op.g.callers("ceos_alos2.sar_image.caching.path:remote_cache_location") if k in op.reach and k != "ceos_alos2.sar_image.caching:read_cache"]
-    chk.require(not rem_writers, "C10-W1", "caching", "the adjacent cache location is only used for reading", f"remote_cache_location used by {rem_writers}", key="remote-location-writers")
+    if rem_writers:
+        # somebody else computes it: whether anything is written there is decided by evaluating the writer (C10-W9)
+        raise AnalysisError(f"caching: remote_cache_location is also used by {rem_writers}; whether the writer stores anything next to the image is decided by evaluation (C10-W9)")
+    chk.ok("C10-W1", "caching", "the adjacent cache location is only computed by read_cache")
+
+
+def cache_writes_model(chk, repo):
+    """C10-W9: caching.create_cache evaluated on a model of the user cache directory and of the product mapper
+    (vlib/cachefs.py): everything it creates, writes, renames or removes lies under the user cache directory, and nothing is
+    stored through the product mapper"""
+    from collections import OrderedDict
+    from ..cachefs import World, call
+    from ..shapes import Const, NonTermination, Obj, ShapeError
+    chk.rule("C10-W9", "create_cache evaluated: writes only below the user cache directory, nothing through the product mapper; an existing entry is replaced", 4)
+    cach = repo.module("ceos_alos2.sar_image.caching")
+    where = f"{cach.relpath}:create_cache"
+    for root, img in (("memory://product", "IMG-HH-ALOS2012345678-140102-WBDR1.1__D-B3"), ("/data/ALOS2/scene", "sub/dir/IMG-HV-ALOS2012345678-140102-UBSR2.1GUD")):
+        W = World(repo)
+        try:
+            I, sc = W.interp()
+            m = W.mapper(root)
+            g1 = Obj("Group", OrderedDict(path=Const("HH"), tag=Const("first")))
+            g2 = Obj("Group", OrderedDict(path=Const("HH"), tag=Const("second")))
+            sit = f"product {root!r}, image {img!r}"
+            for n, g in (("first", g1), ("second", g2)):
+                k, v = call(I, sc, "create_cache", [m, Const(img), g])
+                if k != "returned":
+                    chk.fail("C10-W9", where, f"{sit}: the {n} create_cache {k}: {str(v)[:80]}", key=f"writes:{n}")
+            outside = [e for e in W.events if e[0] in ("mkdir", "write", "unlink") and e[1][:1] != ("CACHE",)] + [e for e in W.events if e[0] == "rename" and (e[1][:1] != ("CACHE",) or e[2][:1] != ("CACHE",))]
+            chk.require(not outside, "C10-W9", where, f"{sit}: every directory and file create_cache touches lies under the user cache directory",
+                        f"{sit}: create_cache touches {outside[:3]} outside the user cache directory", key="writes:outside")
+            through = [e for e in W.events if e[0] == "mapper-set"]
+            chk.require(not through, "C10-W9", where, f"{sit}: nothing is stored through the product mapper",
+                        f"{sit}: create_cache stores {through[:3]} through the product mapper: opening a product writes into the product", key="writes:mapper")
+            k, v = call(I, sc, "read_cache", [m, Const(img), Const(7)])
+            chk.require(k == "returned" and v is g2, "C10-W9", where, f"{sit}: a second create_cache replaces the entry",
+                        f"{sit}: after two create_cache calls read_cache {'returns the first group' if k == 'returned' and v is g1 else k}: an existing entry is not replaced", key="writes:replaced")
+        except (ShapeError, NonTermination, RecursionError) as e:
+            raise AnalysisError(f"{where}: cannot be evaluated on the model cache places ({root!r}, {img!r}): {str(e)[:160]}")
 
 
 def w2(chk, op):
